@@ -26,6 +26,7 @@ import (
 	registry "github.com/oasisprotocol/oasis-core/go/registry/api"
 	"github.com/oasisprotocol/oasis-core/go/common/node"
 	"github.com/oasisprotocol/oasis-core/go/common/sgx"
+	"github.com/oasisprotocol/oasis-core/go/common/sgx/ias"
 	"github.com/oasisprotocol/oasis-core/go/common/sgx/pcs"
 	"github.com/oasisprotocol/oasis-core/go/common/sgx/quote"
 
@@ -39,6 +40,7 @@ type CfgD struct {
 	Signed    bool     `json:"signed"`
 	DefPolicy *PolicyD `json:"def_policy,omitempty"` // default PCS policy (a default quote.Policy is present iff HasDef)
 	HasDef    bool     `json:"has_def,omitempty"`
+	DefIAS    bool     `json:"def_ias,omitempty"` // the default quote.Policy has an IAS part
 	DefMaxAge uint64   `json:"def_max_age"`
 	TDX       bool     `json:"tdx,omitempty"`
 }
@@ -47,6 +49,7 @@ type ConsD struct {
 	V         uint16      `json:"v"`
 	Enclaves  [][2]string `json:"enclaves"`
 	HasPolicy bool        `json:"has_policy,omitempty"`
+	IAS       bool        `json:"ias,omitempty"` // the policy object has an IAS part
 	Policy    *PolicyD    `json:"policy,omitempty"` // PCS part
 	MaxAge    uint64      `json:"max_age"`
 }
@@ -105,14 +108,14 @@ func effPolicy(cfg CfgD, sc ConsD) PolicyD {
 	return *p
 }
 
-func optPolicyCoq(has bool, p *PolicyD) string {
+func optPolicyCoq(has, hasIAS bool, p *PolicyD) string {
 	if !has {
 		return "None"
 	}
 	if p == nil {
-		return "(Some (mkQP false None))"
+		return "(Some (mkQP " + coqout.Bool(hasIAS) + " None))"
 	}
-	return "(Some (mkQP false (Some " + p.coq() + ")))"
+	return "(Some (mkQP " + coqout.Bool(hasIAS) + " (Some " + p.coq() + ")))"
 }
 
 type nodeResult struct {
@@ -193,6 +196,9 @@ func buildCons(cd ConsD) []byte {
 	}
 	if cd.HasPolicy {
 		sc.Policy = &quote.Policy{}
+		if cd.IAS {
+			sc.Policy.IAS = &ias.QuotePolicy{}
+		}
 		if cd.Policy != nil {
 			sc.Policy.PCS = cd.Policy.real()
 		}
@@ -282,12 +288,15 @@ func evalNode(n NodeD) (res nodeResult) {
 		cfg = &node.TEEFeatures{SGX: node.TEEFeaturesSGX{PCS: n.Cfg.PCS, SignedAttestations: n.Cfg.Signed, DefaultMaxAttestationAge: n.Cfg.DefMaxAge, TDX: n.Cfg.TDX}}
 		if n.Cfg.HasDef {
 			cfg.SGX.DefaultPolicy = &quote.Policy{}
+			if n.Cfg.DefIAS {
+				cfg.SGX.DefaultPolicy.IAS = &ias.QuotePolicy{}
+			}
 			if n.Cfg.DefPolicy != nil {
 				cfg.SGX.DefaultPolicy.PCS = n.Cfg.DefPolicy.real()
 			}
 		}
 		cfgTerm = fmt.Sprintf("(Some (mkCfg %s %s %s %d %s))", coqout.Bool(n.Cfg.PCS), coqout.Bool(n.Cfg.Signed),
-			optPolicyCoq(n.Cfg.HasDef, n.Cfg.DefPolicy), n.Cfg.DefMaxAge, coqout.Bool(n.Cfg.TDX))
+			optPolicyCoq(n.Cfg.HasDef, n.Cfg.DefIAS, n.Cfg.DefPolicy), n.Cfg.DefMaxAge, coqout.Bool(n.Cfg.TDX))
 	}
 	capTEE := node.CapabilityTEE{Hardware: node.TEEHardware(n.Cap.Hardware), RAK: rak, REK: rek, Attestation: attBytes}
 
@@ -425,7 +434,8 @@ func evalNode(n NodeD) (res nodeResult) {
 			v("registration accepted without a PCS quote / with malformed input")
 		}
 		if res.inner.code != 0 {
-			v("registration accepted although the quote bundle itself is rejected (%s)", res.inner.errStr)
+			pf, _ := json.Marshal(in.Policy)
+			v("registration accepted although the quote is rejected under the PCS policy in force (runtime's PCS policy if set, else the consensus default, else the built-in fallback) %s: %s", pf, res.inner.errStr)
 		}
 		if res.inner.viol != "" {
 			v("quote layer: %s", res.inner.viol)
@@ -793,6 +803,71 @@ func genNodeReal(vs []vector, rng *prng.R) []NodeD {
 	return out
 }
 
+// genPolicySource: where the PCS policy comes from.  Constraint shapes {no policy object, {}, IAS only, PCS only, both}
+// x consensus defaults {none, lenient, strict minimum evaluation number, disabled, FMSPC blacklist, short validity}
+// x PCS feature on/off, on otherwise fully valid registrations (so that only the policy decides).
+func genPolicySource(rng *prng.R) []NodeD {
+	var out []NodeD
+	fm := strings.ToUpper(hex.EncodeToString(synthFmspc))
+	for _, tdx := range []bool{false, true} {
+		lenient := PolicyD{Period: 30, MinEval: 12, TDX: tdx}
+		mk := func(f func(p *PolicyD)) *PolicyD { p := lenient; f(&p); return &p }
+		defaults := []struct {
+			n   string
+			has bool
+			ias bool
+			p   *PolicyD
+		}{
+			{"none", false, false, nil}, {"default-without-pcs", true, true, nil}, {"lenient", true, false, &lenient},
+			{"strict-min-eval", true, true, mk(func(p *PolicyD) { p.MinEval = 15 })},
+			{"disabled", true, false, mk(func(p *PolicyD) { p.Disabled = true })},
+			{"fmspc-blacklist", true, true, mk(func(p *PolicyD) { p.BL = []string{fm} })},
+			{"short-validity", true, false, mk(func(p *PolicyD) { p.Period = 0 })},
+		}
+		shapes := []struct {
+			n        string
+			has, ias bool
+			p        *PolicyD
+		}{
+			{"no-policy", false, false, nil}, {"policy-{}", true, false, nil}, {"ias-only", true, true, nil},
+			{"pcs-only", true, false, &lenient}, {"ias+pcs", true, true, &lenient},
+			{"pcs-only-strict", true, false, mk(func(p *PolicyD) { p.MinEval = 15 })},
+		}
+		for _, d := range defaults {
+			for _, sh := range shapes {
+				for _, pcsOn := range []bool{true, false} {
+					if !pcsOn && (tdx || d.n == "lenient" || sh.n == "ias+pcs") {
+						continue
+					}
+					if tdx && (d.n == "default-without-pcs" || sh.n == "pcs-only-strict") {
+						continue
+					}
+					r := rng.Fork()
+					rakS, _ := memorySigner.NewFromSeed(r.Bytes(32))
+					rak := rakS.Public()
+					nodeID, rek := r.Bytes(32), r.Bytes(32)
+					rd := append(hashRAK(rak[:]), r.Bytes(32)...)
+					m := mint(r, rd, tdx)
+					sig, _ := rakS.ContextSign(node.AttestationSignatureContext, tupleHash(attTuple(rd, nodeID, 990, rek)))
+					rekS := hex.EncodeToString(rek)
+					attV, scV := uint16(1), uint16(1)
+					if !pcsOn {
+						scV = 1 // rejected as malformed (feature off): the verdict must not depend on the defaults then
+					}
+					n := NodeD{Fam: "policy-source", Note: fmt.Sprintf("tdx=%v default=%s shape=%s pcs=%v", tdx, d.n, sh.n, pcsOn), Inner: m.c, Height: 1000, Is261: true,
+						Cfg:         CfgD{PCS: pcsOn, Signed: true, HasDef: d.has, DefIAS: d.ias, DefPolicy: d.p, DefMaxAge: 100, TDX: tdx},
+						Constraints: ConsD{V: scV, HasPolicy: sh.has, IAS: sh.ias, Policy: sh.p, MaxAge: 50, Enclaves: [][2]string{{hex.EncodeToString(m.mre), hex.EncodeToString(m.mrs)}}},
+						NodeID:      hex.EncodeToString(nodeID),
+						Cap:         CapD{Hardware: 1, RAK: hex.EncodeToString(rak[:]), REK: &rekS, AttV: attV, QuoteKind: "pcs", AttHeight: 990, Sig: hex.EncodeToString(sig)},
+						Reg:         RegD{RtHW: 1, NodeVersion: [3]uint16{1, 0, 0}, Deps: []DepD{{[3]uint16{1, 0, 0}, "case"}}}}
+					out = append(out, n)
+				}
+			}
+		}
+	}
+	return out
+}
+
 func nodeMain(vs []vector, seed uint64, out, replay string, n int) {
 	mintInit()
 	var cases []NodeD
@@ -815,6 +890,7 @@ func nodeMain(vs []vector, seed uint64, out, replay string, n int) {
 		rng := prng.New(seed ^ 0x6e6f6465)
 		cases = genNode(rng.Fork(), n)
 		cases = append(cases, genNodeReal(vs, rng.Fork())...)
+		cases = append(cases, genPolicySource(rng.Fork())...)
 	}
 	results := make([]nodeResult, len(cases))
 	for _, dbg := range []bool{false, true} { // process switch phases
